@@ -533,6 +533,24 @@ func TestC09(t *testing.T) {
 			}
 			pe := n.Zone().TotalLogEntropy(parent)
 			ce := n.Zone().TotalLogEntropy(blk)
+			// accumulated entropy and the intrinsic entropy behind the order are functions of the block: asking again
+			// (warm caches) must give the same answers
+			for i := 0; i < 3; i++ {
+				if again := n.Zone().TotalLogEntropy(blk); again.Cmp(ce) != 0 {
+					fail("order-stable", "entropy-drifts-across-calls", fmt.Sprintf("#%d (%d uncles): TotalLogEntropy returned %v, then %v on call %d", bi.Number, len(blk.Uncles()), ce, again, i+2))
+					return
+				}
+			}
+			ie1, _, _ := n.Zone().CalcOrder(blk)
+			ie1 = new(big.Int).Set(ie1)
+			_ = n.Zone().TotalLogEntropy(blk)
+			if ie2, _, _ := n.Zone().CalcOrder(blk); ie2.Cmp(ie1) != 0 {
+				fail("order-stable", "intrinsic-entropy-drifts", fmt.Sprintf("#%d: CalcOrder's intrinsic entropy was %v and is %v after TotalLogEntropy was called", bi.Number, ie1, ie2))
+				return
+			}
+			if len(blk.Uncles()) > 0 {
+				simkit.Global.Inc("probe.entropy_checked_on_block_with_uncles")
+			}
 			if ce.Cmp(pe) <= 0 {
 				fail("entropy-monotone", "edge", fmt.Sprintf("#%d entropy %v <= parent entropy %v", bi.Number, ce, pe))
 				return
@@ -773,6 +791,8 @@ func checkScopes(n *Node, bi *BlockInfo, fail func(class, witness, detail string
 
 func TestC16(t *testing.T) {
 	chainProperty(t, "C16", func(r *Runner, fail func(class, witness, detail string)) Hooks {
+		addressTable(fail)
+		simkit.Global.Inc("address_tables_checked")
 		return Hooks{AfterHead: func(w *World, n *Node, bi *BlockInfo, reorg bool) { checkScopes(n, bi, fail) }}
 	})
 }
